@@ -128,10 +128,28 @@ def run_check(prop, tier, base_seed, runs_override=None, workers=None):
             continue
         trace = m.regenerate(seed, prop, quarantine)
         r0 = m.replay(trace, prop)
+        flaky = False
         if r0.violation is None:
-            raise core.HarnessError(f'seed {seed}: violation {sig} did not reproduce from its seed')
-        small = m.shrink(trace, prop, r0.violation.clause)
+            # The worker saw a violation that the same seed does not show again.  The simulator owns every input
+            # (self-test: digests agree across interpreters), so the code under test is itself nondeterministic.
+            # Only C06 states determinism; there the history is amplified (many repeats of the same calc) until
+            # the difference shows again.  Everywhere else this is a harness error, never a pass.
+            amp = m.amplify(trace, prop) if hasattr(m, 'amplify') else None
+            if amp is not None:
+                for _ in range(6):
+                    r0 = m.replay(amp, prop)
+                    if r0.violation is not None:
+                        break
+            if amp is None or r0.violation is None:
+                raise core.HarnessError(f'seed {seed}: violation {sig} did not reproduce from its seed')
+            trace, flaky = amp, True
+        small = trace if flaky else m.shrink(trace, prop, r0.violation.clause)
         r1 = m.replay(small, prop, keep_log=True)
+        if r1.violation is None and flaky:
+            for _ in range(6):
+                r1 = m.replay(small, prop, keep_log=True)
+                if r1.violation is not None:
+                    break
         if r1.violation is None:
             raise core.HarnessError(f'seed {seed}: shrunk trace does not fail')
         msig = r1.violation.sig
@@ -142,12 +160,22 @@ def run_check(prop, tier, base_seed, runs_override=None, workers=None):
                 known_hit.append(k['sig'])
             continue
         small['property'] = prop
+        if flaky:
+            small['nondeterministic_code_under_test'] = True
         small['expect'] = {'clause': r1.violation.clause, 'sig': msig, 'detail': r1.violation.detail,
                            'digest': r1.log.digest(), 'found_by_seed': seed}
         path = os.path.join(os.environ.get('VERIF_REPLAY_DIR') or os.path.join(core.VERIF_DIR, 'replays'), f'{prop}-{r1.log.digest()[:12]}.json')
         core.write_json(path, small)
         fr = fresh_replay(path, prop)
-        if fr['violation'] is None or fr['violation']['clause'] != r1.violation.clause or fr['digest'] != r1.log.digest():
+        if flaky:
+            # result of the code under test varies between executions: only the clause can be compared
+            for _ in range(5):
+                if fr['violation'] is not None:
+                    break
+                fr = fresh_replay(path, prop)
+            if fr['violation'] is None or fr['violation']['clause'] != r1.violation.clause:
+                raise core.HarnessError(f'replay {path} (nondeterministic code under test) did not reproduce: {fr}')
+        elif fr['violation'] is None or fr['violation']['clause'] != r1.violation.clause or fr['digest'] != r1.log.digest():
             raise core.HarnessError(f'replay {path} did not reproduce identically in a fresh interpreter: {fr}')
         out_lines.append(f'VIOLATION property={prop} replay={path}')
         out_lines.append(f'  {msig}: {r1.violation.detail}')
